@@ -7,6 +7,11 @@ From MV Require Import Model.Pool.
 Import ListNotations.
 Open Scope Z_scope.
 
+(* the proofs treat the resource updates through their field lemmas: keep cbn/simpl from unfolding them *)
+Arguments req_inc : simpl never.
+Arguments req_dec : simpl never.
+Arguments lease : simpl never.
+
 (* ------------------------------------------------------------------------------------------------ *)
 (* counting over 0..n-1 *)
 Fixpoint countb (f : nat -> bool) (n : nat) : nat :=
@@ -132,7 +137,7 @@ Record PInv (k : cfg) (p : pool) : Prop := mkPInv {
   inv_held : forall s, (s < nstreams p)%nat -> live p s = true -> closed p (scli p s) = true ->
              k_kind k = Http1 /\ sent p s = false;
   inv_total : total p = Z.of_nat (count_open p);
-  inv_req : req p = (if k_max_req k =? 0 then 0 else Z.of_nat (count_live p) + ext p);
+  inv_req : req p = Z.of_nat (count_live p) + ext p;
   inv_ext : 0 <= ext p;
   inv_dirty : forall s, (s < nstreams p)%nat -> live p s = false -> s_reset (st p s) <> 0%nat ->
               closed p (scli p s) = true;
@@ -145,7 +150,6 @@ Lemma init_inv : forall k, PInv k init.
 Proof.
   intros k. constructor; cbn; try (intros; lia); try tauto.
   all: try (now constructor).
-  destruct (k_max_req k =? 0); reflexivity.
 Qed.
 
 (* states that agree on everything the invariant reads *)
@@ -170,7 +174,7 @@ Proof.
            end;
     rewrite ?Hc, ?Hl, ?Hsc, ?Hse, ?Hst, ?Hle; auto.
   - rewrite I7. unfold count_open. rewrite Hn. f_equal. apply countb_ext. intros; rewrite Hc; reflexivity.
-  - rewrite I8. unfold count_live. rewrite Hs. destruct (k_max_req k =? 0); [reflexivity|].
+  - rewrite I8. unfold count_live. rewrite Hs. 
     f_equal. f_equal. apply countb_ext. intros; rewrite Hl; reflexivity.
 Qed.
 
@@ -188,7 +192,7 @@ Section StreamEnds.
   Hypothesis Hst_o : forall s', s' <> s -> st p' s' = st p s'.
   Hypothesis Hst_s : st p' s = mkStream (s_cli (st p s)) false (s_sent (st p s)) (s_recv (st p s))
                                         (S (s_destroys (st p s))) (s_reset (st p s)).
-  Hypothesis Hreq : req p' = (if k_max_req k =? 0 then req p else req p - 1).
+  Hypothesis Hreq : req p' = req p - 1.
   Hypothesis Hext : ext p' = ext p.
 
   Let c := scli p s.
@@ -220,9 +224,9 @@ Section StreamEnds.
     - intros [[s' [H1 [H2 H3]]] Hc]. exists s'. rewrite se_live, se_scli.
       destruct (Nat.eqb_spec s' s) as [->|Hne]; [exfalso; apply Hc; symmetry; exact H3|auto].
   Qed.
-  Lemma se_req : req p' = (if k_max_req k =? 0 then 0 else Z.of_nat (count_live p') + ext p').
+  Lemma se_req : req p' = Z.of_nat (count_live p') + ext p'.
   Proof.
-    rewrite Hreq, Hext, (inv_req _ _ HI), se_count. destruct (k_max_req k =? 0); lia.
+    rewrite Hreq, Hext, (inv_req _ _ HI), se_count. lia.
   Qed.
   Lemma se_once : forall s', (s' < nstreams p')%nat ->
              s_destroys (st p' s') = (if live p' s' then 0 else 1)%nat /\ (s_recv (st p' s') <= 1)%nat /\
@@ -490,7 +494,7 @@ Proof.
   - intros s' H. rewrite Hl, Hsc, Hc. intros H1 H2. destruct (I6 s' H H1 H2) as [H3 H4]. split; [assumption|].
     unfold sent. destruct (Nat.eq_dec s' s) as [->|Hne]; [apply Hsent; assumption|rewrite Hst_o by assumption; exact H4].
   - rewrite I7. unfold count_open. rewrite Hn. f_equal. apply countb_ext. intros; rewrite Hc; reflexivity.
-  - rewrite I8. unfold count_live. rewrite Hns. destruct (k_max_req k =? 0); [reflexivity|].
+  - rewrite I8. unfold count_live. rewrite Hns. 
     f_equal. f_equal. apply countb_ext. intros; rewrite Hl; reflexivity.
   - assumption.
   - intros s' H1. rewrite Hl, Hsc, Hc. destruct (Nat.eq_dec s' s) as [->|Hne]; [auto|rewrite Hst_o by assumption; auto].
@@ -601,7 +605,7 @@ Proof.
     + rewrite Hcl. reflexivity.
     + rewrite Hc, Nat.eqb_refl. reflexivity.
     + intros i Hi'. rewrite Hc. destruct (Nat.eqb_spec i c); [contradiction|reflexivity].
-  - rewrite I8. unfold count_live. rewrite Hns. destruct (k_max_req k =? 0); [reflexivity|].
+  - rewrite I8. unfold count_live. rewrite Hns. 
     f_equal. f_equal. apply countb_ext. intros; rewrite Hl; reflexivity.
   - assumption.
   - intros s H1. rewrite Hl, Hsc, Hst, Hc. intros H2 H3. destruct (Nat.eqb_spec (scli p s) c); [reflexivity|auto].
@@ -685,7 +689,7 @@ Lemma lease_abstract : forall k p p' c send,
   st p' (nstreams p) = mkStream c true send 0 0 0 ->
   NoDup (idle p') -> (forall x, In x (idle p') <-> In x (idle p) /\ x <> c) ->
   total p' = Z.of_nat (count_open p') ->
-  req p' = (if k_max_req k =? 0 then req p else req p + 1) -> ext p' = ext p ->
+  req p' = req p + 1 -> ext p' = ext p ->
   PInv k p'.
 Proof.
   intros k p p' c send HI Hn Hc_old Hcn Hcopen Hnl Hrange Hns Hst_o Hst_s Hnd Hidle Htot Hreq Hext.
@@ -741,7 +745,7 @@ Lemma lease_fields : forall k c send q,
   nstreams (lease k c send q) = S (nstreams q) /\
   st (lease k c send q) = upd (st q) (nstreams q) (mkStream c true send 0 0 0) /\
   idle (lease k c send q) = idle q /\ total (lease k c send q) = total q /\ ext (lease k c send q) = ext q /\
-  req (lease k c send q) = (if k_max_req k =? 0 then req q else req q + 1).
+  req (lease k c send q) = req q + 1.
 Proof. intros. unfold lease, req_inc. destruct (k_max_req k =? 0); cbn; auto 10. Qed.
 
 Lemma lease_new_inv : forall k p send, PInv k p -> PInv k (lease k (nclients p) send (new_client p)).
@@ -764,7 +768,8 @@ Proof.
   - intros x. split; [intros H; split; [assumption|]|tauto]. intros ->. destruct (inv_idle _ _ HI _ H). lia.
   - rewrite (inv_total _ _ HI).
     assert (Hnn : nclients (req_inc k (new_client p)) = S (nclients p)) by (unfold req_inc; destruct (k_max_req k =? 0); reflexivity).
-    rewrite Hnn. cbn [countb]. rewrite Hcl, Nat.eqb_refl. cbn [negb].
+    try rewrite Hnn. unfold count_open at 2. rewrite ?F1. change (nclients (new_client p)) with (S (nclients p)).
+    cbn [countb]. rewrite Hcl, Nat.eqb_refl. cbn [negb].
     rewrite (countb_ext (fun c' => negb (closed (lease k (nclients p) send (new_client p)) c')) (fun c' => negb (closed p c')) (nclients p)).
     + unfold count_open. lia.
     + intros i Hi. rewrite Hcl. destruct (Nat.eqb_spec i (nclients p)); [lia|reflexivity].
@@ -784,8 +789,7 @@ Proof.
   destruct (inv_idle _ _ HI c Hcin) as [Hc1 [Hc2 Hc3]].
   assert (Hcl : forall c', closed (lease k c send (p <| idle := removelast (idle p) |>)) c' = closed p c').
   { intros c'. unfold closed. rewrite F2. reflexivity. }
-  apply (lease_abstract k p _ c send HI); rewrite ?F1, ?F3, ?F4, ?F5, ?F6, ?F7, ?F8; cbn; auto.
-  - rewrite Hcl. assumption.
+  apply (lease_abstract k p _ c send HI); rewrite ?F1, ?F3, ?F4, ?F5, ?F6, ?F7, ?F8; cbn; auto; try (rewrite Hcl; assumption).
   - intros; lia.
   - intros s' H. rewrite upd_other by assumption. reflexivity.
   - rewrite upd_same. reflexivity.
@@ -794,7 +798,7 @@ Proof.
     + intros [[H|[H|[]]] Hx]; [assumption|congruence].
   - rewrite (inv_total _ _ HI).
     assert (Hnn : nclients (req_inc k (p <| idle := removelast (idle p) |>)) = nclients p) by (unfold req_inc; destruct (k_max_req k =? 0); reflexivity).
-    rewrite Hnn. unfold count_open. f_equal. apply countb_ext. intros. rewrite Hcl. reflexivity.
+    try rewrite Hnn. unfold count_open. rewrite ?F1. cbn [nclients]. f_equal; try (apply countb_ext; intros; rewrite Hcl; reflexivity).
 Qed.
 
 (* ------------------------------------------------------------------------------------------------ *)
@@ -872,10 +876,9 @@ Proof.
   - cbn [fst]. apply conn_close_inv; assumption.
   - destruct (k_kind k); cbn [fst]; [assumption|]. destruct (Nat.ltb c (nclients p)); cbn [fst]; [apply set_cconn_inv|]; assumption.
   - cbn [fst]. apply set_cconn_fold_inv. assumption.
-  - destruct (k_max_req k =? 0) eqn:Em; cbn [fst]; [assumption|].
-    destruct HI as [I1 I2 I3 I4 I5 I6 I7 I8 I9 I10 I11]. rewrite Em in I8.
+  - destruct HI as [I1 I2 I3 I4 I5 I6 I7 I8 I9 I10 I11].
     destruct inc; [|destruct (0 <? ext p) eqn:Ee]; cbn [fst]; try (constructor; assumption);
-      constructor; cbn; try assumption; rewrite ?Em; unfold count_live, live in *; cbn; lia.
+      constructor; cbn; try assumption; unfold count_live, live in *; cbn; lia.
 Qed.
 
 Theorem run_inv : forall k ops p, k_sw k = sw_fixed -> PInv k p -> PInv k (run k ops p).
@@ -1003,7 +1006,7 @@ Section Consequences.
   Qed.
 
   (* the Requests resource counts exactly the live streams (plus what others hold) and is never negative *)
-  Lemma requests_balanced : req p = (if k_max_req k =? 0 then 0 else Z.of_nat (count_live p) + ext p) /\ 0 <= req p.
+  Lemma requests_balanced : req p = Z.of_nat (count_live p) + ext p /\ 0 <= req p.
   Proof.
     split; [apply (inv_req _ _ HI)|]. rewrite (inv_req _ _ HI). pose proof (inv_ext _ _ HI). destruct (k_max_req k =? 0); lia.
   Qed.
@@ -1126,7 +1129,7 @@ Proof.
   - exfalso. apply Hnot. destruct (k_kind k); cbn [fst] in Hin; [exact Hin|].
     destruct (Nat.ltb c (nclients p)); exact Hin.
   - exfalso. apply Hnot. cbn [fst] in Hin. rewrite fold_set_cconn_idle in Hin. exact Hin.
-  - exfalso. apply Hnot. destruct (k_max_req k =? 0); [exact Hin|]. destruct inc; [exact Hin|]. destruct (0 <? ext p); exact Hin.
+  - exfalso. apply Hnot. destruct inc; [exact Hin|]. destruct (0 <? ext p); exact Hin.
 Qed.
 
 (* after a local reset / time-out or a remote reset of a stream in flight, the connection's next state is closed *)
@@ -1214,7 +1217,7 @@ Theorem pool_books : forall k ops, k_sw k = sw_fixed -> let p := run k ops init 
   total p = Z.of_nat (count_leased p) + Z.of_nat (length (idle p)) /\
   NoDup (idle p) /\
   (forall c, In c (idle p) -> (c < nclients p)%nat /\ closed p c = false /\ inflight p c = 0%nat) /\
-  req p = (if k_max_req k =? 0 then 0 else Z.of_nat (count_live p) + ext p) /\ 0 <= req p.
+  req p = Z.of_nat (count_live p) + ext p /\ 0 <= req p.
 Proof.
   intros k ops Hsw p. assert (HI := reachable_inv k ops Hsw). fold p in HI.
   destruct (books k p HI) as [B1 [B2 [B3 B4]]]. destruct (requests_balanced k p HI) as [R1 R2]. auto 10.
